@@ -23,6 +23,7 @@ type JoinStep struct {
 	Len    int   `json:"len"`                 // unite: slice length; join: always 1
 	Resend bool  `json:"resend,omitempty"`    // unite: send the previous slice object again
 	Spare  int   `json:"spare_cap,omitempty"` // unite: the slice is cut out of a larger buffer: cap = len + spare
+	Nil    bool  `json:"nil,omitempty"`       // unite: a nil slice (an empty input slice like any other)
 }
 
 type JoinScenario struct {
@@ -44,6 +45,8 @@ type JoinScenario struct {
 	StopKind          string `json:"stop_kind,omitempty"`
 	StopBeforeRelease bool   `json:"stop_before_release,omitempty"`
 	StopDelay         int64  `json:"stop_delay_ns,omitempty"`
+	NilCtx            bool   `json:"v1_nil_ctx,omitempty"`      // v1: leave Opts.Ctx nil
+	ReleasedCap       int    `json:"v1_released_cap,omitempty"` // v1 no-copy: capacity of the Released channel
 }
 
 func (sc JoinScenario) divider() int64 {
@@ -151,9 +154,12 @@ func newJoinSys(sc JoinScenario) (*joinSys, error) {
 		in := make(chan int, sc.InCap)
 		ctx, cancel := context.WithCancel(context.Background())
 		opts := v1join.Opts[int]{Ctx: ctx, Input: in, JoinSize: sc.J, Timeout: time.Duration(sc.Timeout), TimeoutInaccuracy: sc.Inacc}
+		if sc.NilCtx {
+			opts.Ctx = nil
+		}
 		var released chan struct{}
 		if sc.NoCopy {
-			released = make(chan struct{})
+			released = make(chan struct{}, sc.ReleasedCap)
 			opts.Released = released
 		}
 		d, err := v1join.New(opts)
@@ -243,6 +249,9 @@ func runJoin(sc JoinScenario, inBubble bool, rng *rand.Rand) *JoinTrace {
 					n = 1
 				}
 				payload = make([]int, n, n+st.Spare)
+				if st.Nil && sc.Disc == "unite" {
+					payload = nil
+				}
 				for i := range payload {
 					payload[i] = next
 					next++
@@ -549,6 +558,9 @@ func judgeJoin(sc JoinScenario, tr *JoinTrace, inBubble bool) (fs []joinFinding,
 		outStart[i] = len(cat)
 		if len(o.Data) == 0 {
 			add("C03", "empty-slice", "output slice #%d is empty", i)
+			if isUnite {
+				add("C11", "empty-output", "output slice #%d is empty: empty input slices must produce nothing", i)
+			}
 		}
 		cat = append(cat, o.Data...)
 	}
@@ -762,6 +774,12 @@ func judgeUniteByValue(sc JoinScenario, tr *JoinTrace, add func(prop, key, forma
 		}
 	}
 	for k, in := range tr.In {
+		if _, ok := where[k]; !ok && in.B > in.A && tr.Closed {
+			add("C11", "never-delivered", "non-empty input slice #%d (%d elements) appears in no output slice although the output was read until it closed", k, in.B-in.A)
+			return
+		}
+	}
+	for k, in := range tr.In {
 		n := in.B - in.A
 		oi, ok := where[k]
 		if n < int(sc.J) || !ok {
@@ -867,7 +885,10 @@ func genJoinScenario(rng *rand.Rand, g joinGen) JoinScenario {
 			}
 		}
 	}
-	T := sc.Timeout
+	if !withTimeout && rng.IntN(4) == 0 {
+		sc.Timeout = -1 - rng.Int64N(1000000) // zero or negative: no timeout
+	}
+	T := max(sc.Timeout, 0)
 	tick := int64(0)
 	if T > 0 && d > 0 {
 		tick = T / d
@@ -941,6 +962,7 @@ func genJoinScenario(rng *rand.Rand, g joinGen) JoinScenario {
 			switch rng.IntN(8) {
 			case 0:
 				st.Len = 0
+				st.Nil = rng.IntN(2) == 0
 			case 1:
 				st.Len = 1
 			case 2:
@@ -1045,6 +1067,9 @@ func genJoinScenario(rng *rand.Rand, g joinGen) JoinScenario {
 			sc.Hold = append(sc.Hold, h)
 		}
 	}
+	if sc.Disc == "v1join" {
+		sc.ReleasedCap = rng.IntN(2)
+	}
 	if g.Stop != 0 && sc.Disc == "v1join" {
 		sc.StopKind = []string{"stop", "cancel"}[rng.IntN(2)]
 		sc.StopAfter = rng.IntN(4)
@@ -1071,6 +1096,9 @@ func genJoinScenario(rng *rand.Rand, g joinGen) JoinScenario {
 				}
 			}
 		}
+	}
+	if sc.Disc == "v1join" && sc.StopKind != "cancel" {
+		sc.NilCtx = rng.IntN(4) == 0
 	}
 	return sc
 }
